@@ -16,7 +16,7 @@
 EXTENDS Naturals, Sequences, FiniteSets, TLC, Json
 
 CONSTANTS MaxFields, MaxLayers,
-          LeafKinds,        \* subset of {"int","str","dur","time","slice","map","arr","pint"}
+          LeafKinds,        \* subset of {"int","str","dur","time","slice","map","arr","pint","parr"} (parr: an array of pointers)
           SkipKinds,        \* subset of {"dash","dashref","chan","func","unexp"} (dashref: a dials:"-" field holding a reference)
           StructKinds,      \* subset of {"struct","pstruct","emb"}
           InnerShapes,      \* shapes of nested structs
